@@ -23,11 +23,12 @@ ASSUMPTIONS = ["values are float32-exact dyadics so that a float32 carrier is th
                "only the carriers listed in the statement; nullable pandas extension dtypes are out of scope",
                "valid_range_test needs dtype= for plain lists (documented), so list carriers pass dtype there",
                "object ndarrays and tz-aware *data* are not offered to valid_range_test (it takes the dtype from the input; "
-               "'any real dtype' and the tz-aware carriers of the statement refer to numeric data and to time inputs)"]
+               "'any real dtype' and the tz-aware carriers of the statement refer to numeric data and to time inputs); integer "
+               "carriers reach valid_range_test only with spans that dtype can represent (the span is documented to be cast to it)"]
 EXHAUSTIVE_ALL = False
 
 DATA_CARRIERS = ["list-none", "tuple-none", "list-nan", "tuple-nan", "f32", "object", "masked-finite", "masked-nan",
-                 "series", "series-shifted", "dask", "int"]
+                 "series", "series-shifted", "dask", "int", "int16", "uint8", "int32", "int8"]
 TIME_CARRIERS = [c for c in gen.TIME_CARRIERS if c != "dt64ns"]
 T0F = float(gen.T0)
 POISON = [1.0, 2.5, -7.0, 100.0, 0.0]  # finite values hidden under the mask: GOOD-, SUSPECT- and FAIL-looking
@@ -66,6 +67,11 @@ def dcar(x, how, poison=1.0):
         if has_missing or any(v != int(v) for v in x):
             return None
         return np.array([int(v) for v in x], dtype=np.int64)
+    if how in ("int16", "uint8", "int32", "int8"):
+        info = np.iinfo(how)
+        if has_missing or any(v != int(v) or not (info.min <= v <= info.max) for v in x):
+            return None
+        return np.array([int(v) for v in x], dtype=how)
     raise KeyError(how)
 
 
@@ -86,14 +92,24 @@ def cases(rng):
     lon = [None if rng.random() < pm / 2 else 10.0 + 0.25 * rng.randrange(0, 9) for _ in range(n)]
     lat = [None if rng.random() < pm / 2 else 50.0 + 0.125 * rng.randrange(0, 9) for _ in range(n)]
     x = [None if v is None else v + OFF for v in x]
+    if intvals and OFF == 0.0 and rng.random() < 0.6:
+        lo_, hi_ = rng.choice([(100, 127), (180, 250), (15000, 17000), (-30000, -20000), (2 ** 30, 2 ** 30 + 2000)])
+        x = [float(rng.randrange(lo_, hi_ + 1)) for _ in range(n)]
+        if rng.random() < 0.5 and n >= 3:
+            x[n // 2] = float(lo_ if x[n // 2] > (lo_ + hi_) / 2 else hi_)
+        span_lo, span_hi = lo_ + (hi_ - lo_) // 4, hi_ - (hi_ - lo_) // 4
+    else:
+        span_lo = span_hi = None
     D = ("data", x)
     Tm = ("time", t)
     if any(v != int(v) for v in t):
         return _subsec_cases(rng, x, z, lon, lat, t, D, Tm)
     return [
-        ("gross_range", "qartod.gross_range_test", {"inp": D, "fail_span": ("span", [-2 + OFF, 4 + OFF]), "suspect_span": ("span", [-1 + OFF, 2 + OFF])}),
+        ("gross_range", "qartod.gross_range_test", {"inp": D, "fail_span": ("span", [-2 + OFF, 4 + OFF] if span_lo is None else [span_lo - 3, span_hi + 3]),
+                                                    "suspect_span": ("span", [-1 + OFF, 2 + OFF] if span_lo is None else [span_lo, span_hi])}),
         ("valid_range", "axds.valid_range_test", {"inp": D, "valid_span": ("span", [-1 + OFF, 3 + OFF])}),
-        ("spike-average", "qartod.spike_test", {"inp": D, "suspect_threshold": ("param", 0.5), "fail_threshold": ("param", 2)}),
+        ("spike-average", "qartod.spike_test", {"inp": D, "suspect_threshold": ("param", 0.5 if span_lo is None else 3),
+                                                "fail_threshold": ("param", 2 if span_lo is None else 12)}),
         ("spike-differential", "qartod.spike_test", {"inp": D, "suspect_threshold": ("param", 0.5), "fail_threshold": ("param", 2),
                                                      "method": ("param", "differential")}),
         ("rate_of_change", "qartod.rate_of_change_test", {"inp": D, "tinp": Tm, "threshold": ("param", 0.01)}),
@@ -155,6 +171,12 @@ def build(roles, vary=None, how=None, func=None):
                 return None
             if func == "axds.valid_range_test" and c == "object":
                 return None  # object is not a real dtype (valid_range_test takes its dtype from the array)
+            if func == "axds.valid_range_test" and c in ("int16", "uint8", "int32", "int8", "int"):
+                # documented: the span is cast to the data's dtype; only spans that dtype can hold are the same span
+                sp = roles.get("valid_span", (None, []))[1]
+                info = np.iinfo(np.int64 if c == "int" else c)
+                if any(b is not None and (b != int(b) or not (info.min <= b <= info.max)) for b in sp):
+                    return None
             kw[name] = v
             if func == "axds.valid_range_test" and isinstance(v, (list, tuple)):
                 kw["dtype"] = np.float64
@@ -206,6 +228,33 @@ def run(ctx) -> None:
                     variants += [(name, c) for c in TIME_CARRIERS]
                 elif kind == "span":
                     variants.append((name, "tuple"))
+            # a mutable container that is refilled in place and passed again is just another representation of the new
+            # instants: same flags as a fresh carrier of those instants
+            tnames = [k for k, (kind, _v) in roles.items() if kind == "time"]
+            if tnames and rng.random() < 0.5:
+                tn = tnames[0]
+                told = roles[tn][1]
+                for how in ("dt64ns", "epoch-list", "epoch-float"):
+                    kw1 = build(roles, vary=tn, how=how, func=func)
+                    if kw1 is None:
+                        continue
+                    client.invoke(func, kw1, check_purity=False)
+                    tnew = [told[0] + (v - told[0]) * 3 + 7 for v in told]  # still increasing, different spacing
+                    cont = kw1[tn]
+                    fresh_vals = gen.times(tnew, how)
+                    if fresh_vals is None:
+                        continue
+                    for i_ in range(len(tnew)):
+                        cont[i_] = fresh_vals[i_]
+                    o_re = client.invoke(func, kw1, check_purity=False)
+                    o_fr = client.invoke(func, {**kw1, tn: gen.times(tnew, "dtindex")}, check_purity=False)
+                    ctx.count("c15.refilled_container_pairs")
+                    a_ = None if o_re.kind != "return" else o_re.flags.reshape(-1).tolist()
+                    b_ = None if o_fr.kind != "return" else o_fr.flags.reshape(-1).tolist()
+                    if a_ != b_:
+                        ctx.violation(f"C15:refilled-{how}-container:flags-differ:{func}",
+                                      {"kind": "carrier-group", "mode": mode, "carrier": how + " (same object refilled in place)",
+                                       "case": logical, "new_times": tnew, "refilled": o_re.brief(), "fresh": o_fr.brief()})
             for name, how in variants:
                 kw = build(roles, vary=name, how=how, func=func)
                 if kw is None:
